@@ -32,6 +32,17 @@ WANT = {"Unsigned8": ("u8", 1), "Unsigned16": ("u16", 2), "Unsigned32": ("u32", 
 SIZES = {"Unsigned8": 1, "Unsigned16": 2, "Unsigned32": 4, "Signed8": 1, "Signed16": 2, "Signed32": 4, "Bit": 1, "BitArea": 1}
 
 
+def _succeeded(fname):
+    """key predicate: the discriminant of the result of a call of `fname` itself (`x?` implies it through the Try::branch mapping of the
+    guard engine; `match` / `let .. else` / `if let` test it directly)"""
+    def m(k):
+        if k[0] != "discr":
+            return False
+        t = strip_refs(k[1])
+        return t[0] == "call" and M.callee_matches(t[1], fname)
+    return m
+
+
 def variant_of(fs):
     v = fs.get(("discr", ("arg", "self")))
     return next(iter(v[1])) if v is not None and v[0] == "in" and len(v[1]) == 1 else None
@@ -109,7 +120,7 @@ def check(ctx):
                    "%s overwrites the whole byte (%s): the other bit fields sharing the byte are clobbered; the field must be cleared with a mask and ORed in" % (v, sv), w.loc(x["b"], x["i"]))
     # range guards precede the store
     for x, fs in byv.get("Bit", []):
-        ok = any(k[0] == "cmp" and k[1] == "eq" and path_str(k[2]) == "value" and k[3] in (("const", 0), ("const", 1)) and vs == ("in", frozenset([True])) for k, vs in fs.items()) or \
+        ok = any(path_str(k) == "value" and vs[0] == "in" and vs[1] <= frozenset([0, 1]) for k, vs in fs.items()) or any(k[0] == "cmp" and k[1] == "eq" and path_str(k[2]) == "value" and k[3] in (("const", 0), ("const", 1)) and vs == ("in", frozenset([True])) for k, vs in fs.items()) or \
             any(k[0] == "cmp" and k[1] == "eq" and path_str(k[3]) == "value" and k[2] in (("const", 0), ("const", 1)) and vs == ("in", frozenset([True])) for k, vs in fs.items())
         ctx.ob("b.bitfields", "range-guard|Bit", ok, "a Bit is stored without the guard value ∈ {0, 1}: " + M.fmt_facts(fs), w.loc(x["b"], x["i"]))
     for x, fs in byv.get("BitArea", []):
@@ -156,7 +167,7 @@ def check(ctx):
     for f, b, c in callers:
         if roles[(f.name, b)] == "constrained":
             gf = GuardAnalysis(f, P)
-            ok, w_ = M.all_disj(gf.at(b), lambda k: k[0] == "discr" and M.mentions(k[1], M.t_call("assert_valid")), {"Continue"})
+            ok, w_ = M.all_disj(gf.at(b), _succeeded("assert_valid"), {"Ok", "Some"})
             args = [gf.tb.joperand(a) for a in c["args"]]
             same = [gf.tb.joperand(x["args"][1]) for bb, x in call_sites(f, lambda x: callee_is(x, "assert_valid"))]
             ctx.ob("c.atomic", "constraint-before-write", ok and same and same[0] == args[1],
@@ -213,7 +224,7 @@ def check(ctx):
             ctx.ob("c.atomic", "enum-membership|%s|%s" % (f.name.split("::")[-1], short), ok,
                    "the enumeration constraint is tested with `%s`, which is not an order-independent membership test of the listed values "
                    "(binary_search needs a sorted list; GSD files list values in any order)" % short, f.loc(b))
-    ctx.anchor("membership tests of enumeration constraints", nm, 2)
+    ctx.anchor("membership tests of enumeration constraints", nm, 1)
     check_sizing(ctx, P)
     for name in ("PrmBuilder::set_prm", "PrmBuilder::set_prm_from_text"):
         f = ctx.need_fn(CR, name)
@@ -221,10 +232,10 @@ def check(ctx):
             continue
         gf = GuardAnalysis(f, P)
         for b, c in call_sites(f, lambda c: callee_is(c, "write_constrained_value_to_slice")):
-            ok, w_ = M.all_disj(gf.at(b), lambda k: k[0] == "discr" and M.mentions(k[1], M.t_call("get_prm")), {"Continue"})
+            ok, w_ = M.all_disj(gf.at(b), _succeeded("get_prm"), {"Ok", "Some"})
             ok2 = True
             if name.endswith("from_text"):
-                ok2, w2 = M.all_disj(gf.at(b), lambda k: k[0] == "discr" and M.mentions(k[1], M.t_call("get_value_from_text")), {"Continue"})
+                ok2, w2 = M.all_disj(gf.at(b), _succeeded("get_value_from_text"), {"Ok", "Some"})
             ctx.ob("c.atomic", "resolve-before-write|" + name.split("::")[-1], ok and ok2, "the block is written before the parameter name / text was resolved successfully: " + w_, f.loc(b))
         direct = [x for x in buffer_writes(f, gf.tb, lambda t: "prm" in (path_str(t) or ""))]
         ctx.ob("c.atomic", "no-direct-write|" + name.split("::")[-1], not direct, "%s writes the block directly (must go through the constrained writer)" % name, f.loc(0))
